@@ -322,7 +322,7 @@ class ParametricModelBaseMixin(object):
 
     @classmethod
     def _get_object_type_name(cls):
-        return "parametric_model"
+        return "model"
 
     def _get_error_reference(self, *args, **kwargs):
         # model values are recomputed lazily: bring them up to date before they are used as a reference
